@@ -121,10 +121,17 @@ class ReaderSelect(Scenario):
 
 
 class ReaderIterate(Scenario):
-    name = "reader_iterate"
+    """the 'manyfiles' flavour spreads one level over 70 binary files (more tasks than any worker count)"""
+
+    def __init__(self, flavour=""):
+        self.flavour = flavour
+        self.name = "reader_iterate" + ("_" + flavour if flavour else "")
 
     def prepare(self, work, seed):
-        m, p = _plt(work, "plt_ri", seed)
+        if self.flavour == "manyfiles":
+            m, p = _plt(work, "plt_rim", seed, nlevels=1, bf=1, maxsz=1, base=[5, 5, 4], nfiles=70)
+        else:
+            m, p = _plt(work, "plt_ri", seed)
         return {"m": m, "p": p}
 
     def run(self, ctx, out, serial=False):
@@ -343,7 +350,7 @@ class Chk2pltS(Scenario):
 
 
 def all_scenarios():
-    return [ReaderSelect(), ReaderIterate(), Taste(), ColanderS(), ColanderS("manyfiles"), CombineS("same"), CombineS("order"),
+    return [ReaderSelect(), ReaderIterate(), ReaderIterate("manyfiles"), Taste(), ColanderS(), ColanderS("manyfiles"), CombineS("same"), CombineS("order"),
             CombineS("other"), ChefS(), MandolineS("3d"), MandolineS("2d"), MandolineS("plotfile"),
             PestleS(), WhipS(), Chk2pltS()]
 
